@@ -206,7 +206,7 @@ func realQuery(tc *TableCtx, txn statedb.ReadTxn, q Query, limit int) (res []MOb
 		collect(seq)
 		return res, wch
 	case q.Kind.isLPM():
-		sq = lpmQuery(q.Kind, q.Pfx)
+		sq = lpmQuery(q.Kind, q.Pfx, tc.NetIP)
 	default:
 		sq = partQuery(q.Kind, q.Key)
 	}
